@@ -29,3 +29,4 @@ def run(prog, rep):
     _rkx.run_handles_only(prog, rep)
     from ..rules import r_key as _rk14
     _rk14.run_setter_verbatim(prog, rep, classes=('nix::Property', 'nix::Section'), floor=6)
+    _rk14.run_store_verbatim(prog, rep)
